@@ -74,13 +74,13 @@ def to_traces(rec, nfiles):
 
 def trace_corpus(item):
     name, src, _ = item
-    r = asm([(src, open(src).read())], timeout=120, post=record)
+    r = asm([(src, open(src).read())], timeout=120, post=record, hooks=True)
     return name, r["outcome"], r["post"]
 
 
 def trace_generated(task):
     srcs, fs = task
-    r = asm(srcs, fs=fs, timeout=5, post=record)
+    r = asm(srcs, fs=fs, timeout=5, post=record, hooks=True)
     return r["outcome"], r["post"], len(srcs)
 
 
